@@ -11,6 +11,7 @@ package jsondb
 
 import (
 	"fmt"
+	"strings"
 	"testing"
 
 	vs "github.com/BlackVectorOps/semantic_firewall/v3/internal/verifsim"
@@ -191,6 +192,100 @@ func runC18JSONSched(t *vs.Tape, cfg map[string]string) (res vs.Result) {
 		}
 	}
 	c.Add("adds_checked", int64(total))
+
+	// ---- phase B: overlapping saves and loads of one path ----
+	// The content is now fixed. 2-3 saver tasks save it to the same path while
+	// loader tasks load that path into fresh scanners; the scheduler interleaves
+	// them at every lock operation and every file-system call. A load may find
+	// no file yet (before the first save has finished); otherwise it must succeed
+	// and give exactly the saved content - never a partial or empty file.
+	want := &jModel{last: map[string]detection.Signature{}}
+	for _, sg := range db.Signatures {
+		want.add(sg)
+	}
+	sim2 := vs.NewSim(vs.ModeSched, t)
+	sim2.MaxSteps = 8000
+	nS := 2 + t.Intn(2, "savers")
+	nL := 1 + t.Intn(2, "loaders")
+	type saveRec struct {
+		err     error
+		ackStep int
+	}
+	type loadRec struct {
+		inv   int
+		err   error
+		match bool
+	}
+	saves := make([][]*saveRec, nS)
+	loads := make([][]*loadRec, nL)
+	for i := 0; i < nS; i++ {
+		i := i
+		n := 1 + t.Intn(2, "s.n")
+		for k := 0; k < n; k++ {
+			saves[i] = append(saves[i], &saveRec{})
+		}
+		sim2.Go(fmt.Sprintf("S%d", i), func() {
+			for _, r := range saves[i] {
+				r.err = sc.SaveDatabase(simFile)
+				r.ackStep = sim2.Steps()
+			}
+		})
+	}
+	for i := 0; i < nL; i++ {
+		i := i
+		n := 1 + t.Intn(3, "l.n")
+		for k := 0; k < n; k++ {
+			loads[i] = append(loads[i], &loadRec{})
+		}
+		sim2.Go(fmt.Sprintf("L%d", i), func() {
+			for _, r := range loads[i] {
+				r.inv = sim2.Steps()
+				r.match, r.err = loadMatches(simFile, want)
+			}
+		})
+	}
+	vs.Attach(sim2)
+	errStr = sim2.RunTasks()
+	vs.Attach(nil)
+	if errStr != "" {
+		res.Infra = "scheduler(phase B): " + errStr
+		return
+	}
+	c.Add("sched_steps", int64(sim2.Steps()))
+	res.Digest = vs.Hash(res.Digest, vs.JoinTrace(sim2.Trace))
+	firstAck := 0
+	for i, ss := range saves {
+		for k, r := range ss {
+			if r.err != nil {
+				res.Violation = vs.Violationf("C18/json-concurrent-save-error", "S%d save %d failed while other saves of the same path were in flight: %v", i, k, r.err)
+				return
+			}
+			if firstAck == 0 || r.ackStep < firstAck {
+				firstAck = r.ackStep
+			}
+		}
+	}
+	for i, ls := range loads {
+		for k, r := range ls {
+			c.Inc("loads_during_saves")
+			if r.err != nil {
+				if strings.Contains(r.err.Error(), "does not exist") && r.inv <= firstAck {
+					c.Inc("loads_before_first_save")
+					continue
+				}
+				res.Violation = vs.Violationf("C18/json-save-not-atomic-concurrent", "L%d load %d (started at step %d, first save finished at step %d) failed: %v", i, k, r.inv, firstAck, r.err)
+				return
+			}
+			if !r.match {
+				res.Violation = vs.Violationf("C18/json-save-not-atomic-concurrent", "L%d load %d loaded a database that is not the saved one", i, k)
+				return
+			}
+		}
+	}
+	if ok, err := loadMatches(simFile, want); err != nil || !ok {
+		res.Violation = vs.Violationf("C18/json-save-not-atomic-concurrent", "after all saves finished the file does not hold the database (load error: %v)", err)
+		return
+	}
 	return
 }
 
